@@ -73,8 +73,11 @@ def gen_case(r, hashseed, tier):
         ops.append(['run', r.choice(idb), r.choice(['script', 'concertina']), [f]])
     else:
       ops.append(['run', r.choice(idb), r.choice(['script', 'concertina', 'concertina', 'cli', 'cli_terminal']), []])
+  aux_db = None
+  if r.random() < 0.25:
+    aux_db = [r.choice(['before', 'after']), r.choice(['aux', 'a_db', 'zz_other'])]
   return {'hashseed': hashseed, 'program': program, 'ground': ground, 'ground_table': ground_table,
-          'versions': versions, 'ops': ops}
+          'versions': versions, 'ops': ops, 'aux_db': aux_db}
 
 
 def gen_fault(r):
@@ -99,6 +102,12 @@ def program_at(case, version, dbpath):
   p['ground'] = list(case['ground'])
   p['ground_table'] = dict(case.get('ground_table') or {})
   p['attach'] = dbpath
+  if case.get('aux_db'):
+    # a second attached database that nothing uses: the grounded tables must still land in logica_home
+    where = case['aux_db']
+    aux = '@AttachDatabase("%s", "%s");' % (where[1], dbpath[:-3] + '-aux.db')
+    p['noise'] = [aux]
+    p['attach_after_noise'] = where[0] == 'before'
   return p
 
 
@@ -400,7 +409,7 @@ def run_history(case, scratch):
       if w_.retained:
         info['probes']['failed_connection_kept_alive_across_later_runs'] += 1
       w_.release()
-    for f in (dbpath, dbpath + '-journal', srcpath):
+    for f in (dbpath, dbpath + '-journal', srcpath, dbpath[:-3] + '-aux.db', dbpath[:-3] + '-aux.db-journal'):
       if os.path.exists(f):
         os.remove(f)
   return vs, info
@@ -435,6 +444,8 @@ def shrink(case):
       yield dict(case, ops=[(['run', op[1], 'concertina', op[3]] if j == i else x) for j, x in enumerate(ops)])
   if case.get('ground_table'):
     yield dict(case, ground_table={})
+  if case.get('aux_db'):
+    yield dict(case, aux_db=None)
   if len(case['ground']) > 1:
     for g in case['ground']:
       ops2 = [o for o in ops if not (o[0] == 'tamper' and o[1] == g)]
